@@ -116,10 +116,7 @@ def augassigns_to(fn, target, op):
     return [n.value for n in ast.walk(fn) if isinstance(n, ast.AugAssign) and ast.unparse(n.target) == target and isinstance(n.op, op)]
 
 
-def extract():
-    """-> list of (name, args, kind, gallina, source text)"""
-    out = []
-
+def _adder(out):
     def add(name, args, kind, node, names, what):
         tr = Tr(names, what)
         body = tr.b(node) if kind == "bool" else tr.q(node)
@@ -128,7 +125,12 @@ def extract():
         if extra:
             raise FailClosed(f"{what}: unexpected free quantity {extra}")
         out.append((name, args, kind, body, ast.unparse(node), missing))
+    return add
 
+
+def group_lp():
+    out = []
+    add = _adder(out)
     # ---- lpinterface.solutions(): bound and stop rule
     fn = func(tree("lpinterface.py"), "Gurobi.solutions")
     add("lp_ub", ["gap", "best"], "Q", one(assigns_to(fn, "ub"), "solutions: ub ="), {"gap": "gap", "best_obj": "best"}, "lp_ub")
@@ -141,7 +143,12 @@ def extract():
     if not isinstance(cut.ops[0], ast.LtE):
         raise FailClosed("solutions: cut is not <=")
     add("lp_cut_rhs", ["n"], "Q", cut.comparators[0], {"len(vv)": "n"}, "lp_cut_rhs")
+    return out
 
+
+def group_sel():
+    out = []
+    add = _adder(out)
     # ---- genotype.py: selection
     gfn = func(tree("genotype.py"), "genotype")
     keeps = [n for n in ast.walk(gfn) if isinstance(n, ast.Compare) and ast.unparse(n.comparators[0]) == "SOLUTION_PRECISION"
@@ -167,7 +174,12 @@ def extract():
     mfn = func(tree("minor.py"), "estimate_minor")
     carry = one([n.value for n in ast.walk(mfn) if isinstance(n, ast.AugAssign) and ast.unparse(n.target) == "s.score"], "minor carry")
     add("sel_minor_carry", ["major_score", "min_major"], "Q", carry, {"major_sol.score": "major_score", "min_score": "min_major"}, "sel_minor_carry")
+    return out
 
+
+def group_cov():
+    out = []
+    add = _adder(out)
     # ---- coverage.py: filters and depth
     cov = tree("coverage.py")
     qf = func(cov, "Coverage.quality_filter")
@@ -192,6 +204,13 @@ def extract():
     add("single_copy_val", ["total", "pcn"], "Q", rets[1], {"self.total(m)": "total", "cn_solution.position_cn(pos)": "pcn"}, "single_copy_val")
     tests = [n.test for n in ast.walk(sc) if isinstance(n, ast.If) and "position_cn" in ast.unparse(n.test)]
     add("single_copy_zero", ["pcn"], "bool", one(tests, "single_copy zero test"), {"cn_solution.position_cn(pos)": "pcn"}, "single_copy_zero")
+    return out
+
+
+def group_norm():
+    out = []
+    add = _adder(out)
+    cov = tree("coverage.py")
     nc = func(cov, "Coverage._normalize_coverage")
     ratio = one(assigns_to(nc, "ratio"), "_normalize_coverage ratio")
     add("norm_ratio", ["neutral_value", "sam_ref"], "Q", ratio, {"self.profile.neutral_value": "neutral_value", "sam_ref": "sam_ref"}, "norm_ratio")
@@ -203,7 +222,12 @@ def extract():
     half = one([n.value for n in ast.walk(nc) if isinstance(n, ast.AugAssign) and ast.unparse(n.target) == "p" and isinstance(n.op, ast.Div)],
                "_normalize_coverage p /= 2")
     add("norm_profile_div", [], "Q", half, {}, "norm_profile_div")
+    return out
 
+
+def group_cn():
+    out = []
+    add = _adder(out)
     # ---- cn.py: weak-fusion bound, region scale
     cn = tree("cn.py")
     sfn = func(cn, "solve_cn_model")
@@ -211,6 +235,8 @@ def extract():
     add("cn_fusion_keep", ["support", "max_cn"], "bool", fus, {"fusion_support[name]": "support", "max_cn": "max_cn"}, "cn_fusion_keep")
     return out
 
+
+GROUPS = [("lp", group_lp), ("sel", group_sel), ("cov", group_cov), ("norm", group_norm), ("cn", group_cn)]
 
 PRELUDE = """(* GENERATED by harness/gen_exprs.py from /repo's current sources - do not edit.
    Each definition is the structural translation of ONE expression of the code; the source text is quoted. *)
@@ -229,18 +255,33 @@ def emit(defs):
     return "\n".join(L) + "\n"
 
 
-def main():
-    out_path = sys.argv[1] if len(sys.argv) > 1 else os.path.join(os.path.dirname(__file__), "..", "coq", "gen", "Exprs_here.v")
-    try:
-        defs = extract()
-    except FailClosed as e:
-        print(f"FAIL-CLOSED: {e}")
-        sys.exit(2)
-    text = emit(defs)
-    old = open(out_path).read() if os.path.exists(out_path) else None
+def write_if_changed(path, text):
+    old = open(path).read() if os.path.exists(path) else None
     if old != text:
-        open(out_path, "w").write(text)
-    print("exprs:", ", ".join(d[0] for d in defs))
+        open(path, "w").write(text)
+
+
+def main():
+    """writes coq/gen/Exprs_<group>.v, one file per source area, so that an expression the translator cannot read any more
+    (fail-closed) breaks only the obligations of the properties that depend on that area: the group's file then holds no
+    definitions and proofs/Tied_<group>.v stops compiling.  Exit status 0 unless nothing could be written."""
+    out_dir = os.path.dirname(sys.argv[1]) if len(sys.argv) > 1 else os.path.join(os.path.dirname(__file__), "..", "coq", "gen")
+    names, failed = [], []
+    for g, fn in GROUPS:
+        try:
+            defs = fn()
+            text = emit(defs)
+            names += [d[0] for d in defs]
+        except (FailClosed, OSError, SyntaxError) as e:
+            failed.append(f"{g}: {e}")
+            text = PRELUDE + f"(* FAIL-CLOSED: the translator could not read this group from the current sources: {str(e).replace('(*', '( *').replace('*)', '* )')} *)\n"
+        write_if_changed(os.path.join(out_dir, f"Exprs_{g}.v"), text)
+    stale = os.path.join(out_dir, "Exprs_here.v")
+    if os.path.exists(stale):
+        os.remove(stale)
+    print("exprs:", ", ".join(names))
+    for f in failed:
+        print("FAIL-CLOSED group", f)
 
 
 if __name__ == "__main__":
